@@ -6,6 +6,28 @@ use super::super::syntax::*;
 
 pub fn sizes(thorough: bool) -> Vec<usize> { if thorough { vec![254, 255, 256, 257, 300, 1000] } else { vec![255, 256, 257, 300] } }
 
+/// programs at the 16-bit boundaries of the format: the widest frame a call can have (1 parameter +
+/// 65535 locals = 65536 slots; every local assigned / all of them in a branch that is not taken), and a
+/// constant pool whose indices exceed 32767 (sign) with the highest ones in use
+pub fn programs_u16() -> Vec<(String, Vec<E>)> {
+    let mut out: Vec<(String, Vec<E>)> = vec![];
+    let n = 65535usize;
+    let lets = |last: E| { let mut b: Vec<E> = (0..n).map(|i| let_(&format!("v{}", i), int((i % 10) as i32))).collect(); b.push(last); block(b) };
+    out.push(("frame of 65536 slots, every local assigned".to_string(), vec![print("before\\n", vec![]),
+        fun("wide", &["p"], lets(binop("+", binop("+", var("p"), var("v0")), var(&format!("v{}", n - 1))))),
+        print("~\\n", vec![call("wide", vec![int(7)])]), print("after\\n", vec![])]));
+    out.push(("frame of 65536 slots, locals in a branch not taken".to_string(), vec![print("before\\n", vec![]),
+        fun("wide", &["p"], if_(E::Bool(false), lets(E::Null), Some(int(7)))),
+        print("~\\n", vec![call("wide", vec![int(1)])]), print("after\\n", vec![])]));
+    let mut p: Vec<E> = vec![let_("t", int(0))];
+    for i in 0..40_000 { p.push(set("t", int(100_000 + i))) }
+    p.push(fun("late", &["a"], binop("+", var("a"), int(-5))));
+    p.push(let_("last", object(None, vec![field("fld", int(-6)), method("get", &["i"], binop("*", var("i"), int(-7)))])));
+    p.push(print("t=~ late=~ fld=~ get=~\\n", vec![var("t"), call("late", vec![int(1)]), fget(var("last"), "fld"), idx(var("last"), int(3))]));
+    out.push(("constant pool indices beyond 32767 in use".to_string(), p));
+    out
+}
+
 /// (name, program)
 pub fn programs(thorough: bool) -> Vec<(String, Vec<E>)> {
     let mut out: Vec<(String, Vec<E>)> = vec![];
